@@ -284,10 +284,12 @@ def do_action(obj, root, a, emb, beh=None, env=None):
             f.extend(proj.build_fiber({"k": "F", "e": a["other"]}))
         elif op == "setitem":
             v = None if a["v"] == -1 else a["v"]
+            # the root fiber of a tensor is also reached through the tensor's own item assignment (every other position)
+            tgt = obj if (emb == "tensor" and not a.get("path") and a["pos"] % 2 == 1) else f
             if a["c"] == -1:
-                f[a["pos"]] = v
+                tgt[a["pos"]] = v
             else:
-                f[a["pos"]] = CoordPayload(a["c"], v)
+                tgt[a["pos"]] = CoordPayload(a["c"], v)
         elif op == "clear":
             f.clear()
         elif op == "fassign":
